@@ -85,7 +85,7 @@ type World struct {
 	// Head is either "ref: refs/heads/x" or a 40-hex oid (detached).
 	Head   string `json:"head"`
 	Config Config `json:"config"`
-	Layout string `json:"layout,omitempty"` // loose | packed | packed-refs | bitmap (bitmapped pack of half the references' closure, rest loose)
+	Layout string `json:"layout,omitempty"` // loose | packed | packed-refs | promisor (one pack with a .promisor marker) | bitmap (bitmapped pack of half the references' closure, rest loose)
 	Bare   bool   `json:"bare,omitempty"`
 	Extras Extras `json:"extras"`
 
